@@ -225,7 +225,10 @@ def main(argv=None):
                    "reproduced_on_real_code": reproduced, "goal": str(o.goal)[:2000], "meta": {k: str(v)[:2000] for k, v in o.meta.items()}}
         hit = next((f for f in known["findings"] if finding_matches(f, pid, clause, assign)), None)
         if hit:
-            known_hits.append((hit, clause))
+            if (hit, clause) not in known_hits:
+                known_hits.append((hit, clause))
+            continue
+        if any(v[0] == clause for v in violations):
             continue
         if reproduced:
             path = write_replay(pid, clause, payload)
@@ -322,7 +325,7 @@ def main(argv=None):
     ev = {"property_id": pid, "tier": tier, "seed": seed, "level": level, "coverage": cov,
           "assumptions": [ASSUMPTIONS[k] for k in sorted(ASSUMPTIONS)] + sorted({a for cd in cdefs for a in cd.assumptions}),
           "wall_s": round(wall, 2), "violations": len(violations)}
-    if not args.only:
+    if not args.only and not os.environ.get("PYVC_NO_EVIDENCE"):
         os.makedirs(os.path.join(HERE, "evidence"), exist_ok=True)
         with open(os.path.join(HERE, "evidence", f"{pid}.json"), "w") as f:
             json.dump(ev, f, indent=1, default=str)
